@@ -251,7 +251,7 @@ func (eng *Engine) buildVCq(fn *ssa.Function, ct *Contract, qf int) (vc *VC, err
 				}
 			}
 		}
-		if i == 0 && fn.Signature.Recv() != nil {
+		if i == 0 && fn.Signature.Recv() != nil && !(ct != nil && ct.Nilable) {
 			if _, ok := p.Type().Underlying().(*types.Pointer); ok {
 				f.assume(not(eq(n, "0")))
 				vc.assumed["method receivers are non-nil at entry"] = true
@@ -270,6 +270,39 @@ func (eng *Engine) buildVCq(fn *ssa.Function, ct *Contract, qf int) (vc *VC, err
 	if ct != nil {
 		for _, cl := range ct.Requires {
 			f.assume(env.trBool(cl.Expr))
+		}
+	}
+	if ct != nil {
+		for _, u := range ct.Uses {
+			call, ok := u.Expr.(*ECall)
+			if !ok {
+				return nil, fmt.Errorf("spec error: uses clause must be lemma(args): %s", u.Src)
+			}
+			var lm *Lemma
+			for _, l := range eng.cs.Lemmas {
+				if l.Name == call.Fn {
+					lm = l
+				}
+			}
+			if lm == nil || len(lm.Params) != len(call.Args) {
+				return nil, fmt.Errorf("spec error: unknown lemma or wrong arity in uses clause: %s", u.Src)
+			}
+			le := &specEnv{vc: vc, pkg: eng.pkgByPath(lm.Pkg), vars: map[string]specVal{}, st: f.entry, old: f.entry, where: "uses " + lm.Name}
+			for i, p := range lm.Params {
+				a := env.tr(call.Args[i])
+				if p.Typ == "mathint" || p.Typ == "int" {
+					le.vars[p.Name] = mathInt(a.term)
+				} else {
+					le.vars[p.Name] = a
+				}
+			}
+			f.assume(le.trBool(lm.Expr))
+			vc.lemmaDone[lm.Name] = true
+			kind := "lemma"
+			if lm.Axiom {
+				kind = "axiom (unproved, trusted)"
+			}
+			vc.assumed[kind+" "+lm.Name+": "+lm.Src] = true
 		}
 	}
 	f.R0 = f.R
